@@ -32,6 +32,9 @@ def loadPackageSkeleton : String :=
 def reloadResets : List String :=
   ["flags", "indexOnly", "modules", "targets"]
 
+def moduleKey : List String :=
+  ["L.String()"]
+
 def doneShape : List String :=
   ["set R.data,R.err", "R.m.Lock", "set R.loaded", "R.m.Unlock", "R.cond.Broadcast", "return"]
 
